@@ -1457,3 +1457,10 @@ func ifaceMeasureIter(i *Iter) int {
 //@   decreases 0 maxInt(0, len(o.tape.Tape)-o.off)
 //@   safe
 
+
+//@ func (*Iter).FindElement
+//@   props C05 C19
+//@   requires iterOK(i) && i.tape.Strings != nil
+//@   invariant 0 iterOK(&cp) && cp.tape.Strings != nil
+//@   decreases 0 marshalMeasure(&cp)
+//@   safe
